@@ -2217,6 +2217,26 @@ class CurveEngineC09:
                     kw, ts = rng.choice(pool)
                     ops.append({"op": "rate", "kw": copy.deepcopy(kw),
                                 "ts": ts})
+        if rng.random() < 0.15:
+            # a selection is rated, taken back from the rating parameters,
+            # shortened in place and rated again
+            kw_ = {"regressor": rng.choice(["Decision Tree", "Extra Trees"]),
+                   "names": rng.sample(CON_FEATURES, 5)}
+            ops.append({"op": "rate", "kw": kw_, "ts": "zef18"})
+            ops.append({"op": "rate", "kw": copy.deepcopy(kw_),
+                        "ts": "zef18", "edit_returned": rng.randrange(1, 5)})
+        if rng.random() < 0.15:
+            # a user directory is rated with, regenerated in place, and
+            # rated with again
+            kw_ = {"regressor": rng.choice(["Decision Tree", "Extra Trees"])}
+            tsd = rng.choice(["dir:small", "dir:copy"])
+            ops.append({"op": "rate", "kw": kw_, "ts": tsd})
+            ops.append({"op": "rewrite_dir", "ts": tsd, "feature":
+                        rng.choice(CON_FEATURES), "factor":
+                        rng.choice([-1.0, 3.0])})
+            if rng.random() < 0.5:
+                ops.append({"op": "fit", "kw": {"weight_cp": 1e-6}})
+            ops.append({"op": "rate", "kw": copy.deepcopy(kw_), "ts": tsd})
         if pullin:
             inf_feats = ["feat_con_apr_sum", "feat_con_idt_sum",
                          "feat_con_idt_sum_75perc", "feat_con_idt_spike_area",
@@ -2287,6 +2307,7 @@ class CurveEngineC09:
         nontrivial = False
         oracle_checks = 0
         executed = 0
+        rewritten = set()    # directories regenerated in place
         ts_epoch = {}        # in-place edits of held training sets
         cache_ref = None     # key of the call that filled the cache
         prep_epoch = 0       # counts preprocessing changes
@@ -2313,6 +2334,19 @@ class CurveEngineC09:
                         f"modified the module-level table {g}: every later "
                         f"rating in this process uses other defaults", i)
                     break
+                continue
+            if op["op"] == "rewrite_dir":
+                # the user regenerates a training set in the same directory
+                d_ = resolve_ts(op["ts"], None, scratch)
+                f_ = __import__("pathlib").Path(str(d_)) / \
+                    f"train_{op['feature']}.txt"
+                vals = np.loadtxt(str(f_), dtype=float) * op["factor"]
+                np.savetxt(str(f_), vals)
+                probes["training directory rewritten in place"] += 1
+                # (whether the per-object cache of a curve that was rated
+                # with this directory before has to notice is not said: the
+                # live object is not asked about this directory again)
+                rewritten.add(op["ts"])
                 continue
             if op["op"] == "mutate_ts":
                 for hk, (X, y) in held.items():
@@ -2342,6 +2376,59 @@ class CurveEngineC09:
             kw = copy.deepcopy(op.get("kw", {}))
             tsname = op.get("ts", "zef18")
             names = kw.get("names")
+            if tsname in rewritten:
+                # a curve object that never saw the directory before rates
+                # with its new content
+                fo_, err_ = build_fresh_obj(idnt, cfg)
+                if err_ is not None or kw.get("regressor", "x").lower() \
+                        == "none":
+                    continue
+                try:
+                    ts_ = resolve_ts(tsname, names, scratch)
+                    with warnings.catch_warnings():
+                        warnings.simplefilter("ignore")
+                        rr_ = REF_RATERS.get(
+                            kw.get("regressor", "Extra Trees"), ts_, names,
+                            kw.get("lda"))
+                        hp_ = HARNESS_PIPES.get(
+                            kw.get("regressor", "Extra Trees"), ts_, names,
+                            kw.get("lda"))
+                        from nanite.rate.features import \
+                            IndentationFeatures as _IF
+                        fb_ = np.asarray(_IF.compute_features(
+                            fo_, names=rr_.names, which_type="binary"))
+                        fc_ = np.asarray(_IF.compute_features(
+                            fo_, names=rr_.names,
+                            which_type=["continuous"]))
+                        if np.any(fb_ == 0):
+                            want = 0.0
+                        elif not np.all(np.isfinite(fc_)):
+                            want = -1.0
+                        else:
+                            # (the directory as the harness reads it)
+                            want = float(hp_.predict(
+                                np.atleast_2d(fc_))[0])
+                except Exception:
+                    continue
+                fo2 = curves.make_curve(cfg)
+                got = apply_op(fo_, {"op": "rate", "kw": dict(
+                    kw, training_set=ts_)})
+                oracle_checks += 1
+                probes["fresh object rated with a regenerated "
+                       "directory"] += 1
+                if got.get("ok") and got.get("ret") not in (None, "nan") \
+                        and float.fromhex(got["ret"]) != want:
+                    violation = make_violation(
+                        self.prop, "Q2", "fresh-object-directory",
+                        {"regressor": kw.get("regressor", "Extra Trees"),
+                         "ts": "dir"},
+                        f"a fresh curve object rated with a training "
+                        f"directory that was regenerated in place got "
+                        f"{float.fromhex(got['ret'])!r}; a pipeline trained "
+                        f"on the directory's current files gives {want!r}",
+                        i)
+                    break
+                continue
             try:
                 if tsname.startswith("held:"):
                     # the caller keeps one (X, y) tuple and passes the very
@@ -2358,7 +2445,19 @@ class CurveEngineC09:
             except Exception:
                 # feature subset not loadable -> out of domain
                 continue
+            alias_names = False
+            if op.get("edit_returned"):
+                # the selection comes from the reported rating parameters,
+                # edited in place
+                got = idnt.get_rating_parameters()["Feature names"]
+                if isinstance(got, list) and len(got) > 2:
+                    got.pop(op["edit_returned"] % len(got))
+                    names = kw["names"] = list(got)
+                    alias_names = got
+                    probes["selection taken from the rating parameters"] += 1
             call_kw = dict(kw, training_set=ts)
+            if alias_names is not False:
+                call_kw["names"] = alias_names
             feats = {"regressor": kw.get("regressor", "Extra Trees"),
                      "ts": tsname.split(":")[0], "names": names is not None,
                      "lda": kw.get("lda"),
@@ -2406,7 +2505,8 @@ class CurveEngineC09:
                 log.append({"i": i, "op": "rate-faulted", "out": dict(fo),
                             "obs": core.digest(observe_c09(idnt))})
             outcome = apply_op(idnt, {"op": "rate", "kw": call_kw,
-                                      "_alias": tsname.startswith("held:")})
+                                      "_alias": tsname.startswith("held:")
+                                      or alias_names is not False})
             executed += 1
             logged = dict(outcome)
             log.append({"i": i, "op": "rate", "ts": tsname, "out": logged,
@@ -3334,8 +3434,17 @@ def c10_gen_scenario(rng, sid):
                         "y": {"slot": s + "y"},
                         "residual": rng.random() < 0.6,
                         "weight_cp": rng.choice([0, 5e-7])})
-            ops.append({"op": "mutate", "slot": s + "p",
-                        "edit": rng.choice(pedits[:2])})
+            if rng.random() < 0.5:
+                ops.append({"op": "mutate", "slot": s + "p",
+                            "edit": rng.choice(pedits[:2])})
+            else:
+                # same parameters, the abscissa array edited in place
+                ops.append({"op": "mutate", "slot": s + "x", "edit":
+                            rng.choice([{"kind": "array_scale",
+                                         "factor": 0.5},
+                                        {"kind": "array_set", "index":
+                                         rng.randrange(40),
+                                         "value": -2e-7}])})
     else:
         ops.append({"op": "new", "slot": s, "what": "samples",
                     "spec": {"seed": rng.randrange(100),
@@ -3389,6 +3498,14 @@ class CurveEngineC10:
                                         "correct_force_offset",
                                         "correct_tip_offset"],
                 "options": None, "route": "apply"}]
+        if rng.random() < 0.25:
+            # an untouched curve: its (default) attributes are edited in
+            # place and applied
+            ops[0] = {"op": "prep", "route": "attr_inplace",
+                      "steps": ["compute_tip_position",
+                                "correct_force_offset", "correct_tip_offset"],
+                      "options": {"correct_tip_offset": {"method": rng.choice(
+                          ["fit_constant_line", "gradient_zero_crossing"])}}}
         scen = [c10_gen_scenario(rng, k) for k in range(nsc)]
         if rng.random() < 0.5:
             # interleave scenarios, keeping each one's internal order
